@@ -2552,11 +2552,11 @@ fn main() {
 			c_cases: 16_000,
 			d_cases: 240,
 			e_cases: 1000,
-			a_secs: 22,
-			b_secs: 32,
-			c_secs: 8,
-			d_secs: 18,
-			e_secs: 8,
+			a_secs: 66,
+			b_secs: 96,
+			c_secs: 24,
+			d_secs: 54,
+			e_secs: 24,
 		},
 		Budget {
 			a_seeds: 8,
@@ -2567,11 +2567,11 @@ fn main() {
 			c_cases: 100_000,
 			d_cases: 3300,
 			e_cases: 8000,
-			a_secs: 150,
-			b_secs: 330,
-			c_secs: 30,
-			d_secs: 140,
-			e_secs: 40,
+			a_secs: 300,
+			b_secs: 660,
+			c_secs: 60,
+			d_secs: 280,
+			e_secs: 80,
 		},
 	);
 	if san {
